@@ -273,6 +273,20 @@ func sliceSym(x, lo, hi, max value) value {
 		fault(Not(Cmp(OUle, h, BV(uint64(Cap), 64))), fmt.Sprintf("slice bounds out of range [:sym] with capacity %d", Cap))
 	}
 	fault(Not(Cmp(OUle, l, h)), "slice bounds out of range [sym:sym]")
+	// constant-width window at a symbolic position of a concrete string: table lookups
+	if xs, ok := x.(string); ok && !l.IsConst() {
+		if d := Bin(OSub, h, l); d.IsConst() && d.K <= 16 && len(xs) >= 8 && len(xs) <= 1024 {
+			vals := make([]uint64, len(xs))
+			for i := 0; i < len(xs); i++ {
+				vals[i] = uint64(xs[i])
+			}
+			out := make([]value, d.K)
+			for i := uint64(0); i < d.K; i++ {
+				out[i] = mkVal(types.Uint8, TableLookup(vals, 8, Bin(OAdd, l, BV(i, 64))))
+			}
+			return mkStr(out)
+		}
+	}
 	lc, hc, mc := int64(ex.Split(l)), int64(ex.Split(h)), int64(ex.Split(m))
 	switch x := x.(type) {
 	case string:
@@ -398,3 +412,40 @@ func bitcast(v value, from, to types.BasicKind) value {
 
 func (c *castPtr) load() value   { return bitcast(*c.p, c.from, c.to) }
 func (c *castPtr) store(v value) { *c.p = bitcast(v, c.to, c.from) }
+
+
+// symMapKey makes a symbolic scalar key of a map lookup concrete: for maps with
+// few keys it forks once per present key plus once for "absent" (instead of
+// once per feasible value of the key).
+func symMapKey(m value, k value) value {
+	sk, ok := k.(sym)
+	if !ok {
+		return concKey(k)
+	}
+	mm, ok := m.(map[value]value)
+	if !ok || len(mm) > 64 || kindFloat(sk.k) || sk.k == types.Bool {
+		return concKey(k)
+	}
+	var keys []value
+	for key := range mm {
+		keys = append(keys, key)
+	}
+	sort.SliceStable(keys, func(i, j int) bool { return keyLess(keys[i], keys[j]) })
+	for _, key := range keys {
+		kk, ok := kindOfValue(key)
+		if !ok || kk != sk.k {
+			return concKey(k)
+		}
+		if ex.Branch(Cmp(OEq, sk.t, termOf(key))) {
+			return key
+		}
+	}
+	// absent on this path: the lookup result is the same for every absent key, so any
+	// concrete key that is not in the map stands in (the key itself stays symbolic)
+	for c := uint64(0); ; c++ {
+		cand := constOfKind(sk.k, c)
+		if _, present := mm[cand]; !present {
+			return cand
+		}
+	}
+}
